@@ -123,3 +123,19 @@ Definition new_plot : pstate :=
 Definition wf_obj (o : obj) : Prop :=
   match o with OFunc f => fo_spec f = false -> fo_range f = None | _ => True end.
 Definition wf_op (x : op) : Prop := match x with Add o => wf_obj o | _ => True end.
+
+(** * Several plots alive at once: a session is a list of (plot number, call) steps; each call acts on
+    its own Plot object (the model has no state shared between plots -- that the implementation
+    has none either is what the multi-plot correspondence checks) *)
+Fixpoint update {A} (i : nat) (f : A -> A) (l : list A) : list A :=
+  match l, i with
+  | [], _ => []
+  | x :: r, O => f x :: r
+  | x :: r, S j => x :: update j f r
+  end.
+Definition sstep (sts : list pstate) (s : nat * op) : list pstate :=
+  update (fst s) (fun st => pstep st (snd s)) sts.
+Definition srun (steps : list (nat * op)) (sts : list pstate) : list pstate := fold_left sstep steps sts.
+(** the calls made on plot i, in order *)
+Definition calls_on (i : nat) (steps : list (nat * op)) : list op :=
+  map snd (filter (fun s => Nat.eqb (fst s) i) steps).
